@@ -3,7 +3,7 @@ Import ListNotations.
 From BB Require Import BN Brute SpaceFacts TrapFacts PercolateFacts AttractorFacts Diagram Invariants Checks Filter
   Strict PetriNet Control Meta FilterFacts PetriNetFacts TrappistFacts DiagramStruct DiagramSem1 DiagramCache
   DiagramDepth DiagramComplete Termination ControlFacts MetaFacts Candidates StrictFacts MinExpandFacts CandidatesFacts SymbolicTest SymbolicTestFacts Signed ReductionFacts ControlFacts2 Main Blocks BlocksFacts ObsFacts OwnerFacts CandidatesTerm
-  PartialOwner BlockMath BlockComplete ASeeds ASeedsFacts LogChecks SkipRule SkipRuleFacts Names NamesFacts Perm PermFacts SCC SCCFacts SCCStruct ControlFacts3 SCCTerm FilterSym Main2 StrategyFacts ControlFacts4 PyLib PySrc PySrcFacts."""
+  PartialOwner BlockMath BlockComplete ASeeds ASeedsFacts LogChecks SkipRule SkipRuleFacts Names NamesFacts Perm PermFacts SCC SCCFacts SCCStruct ControlFacts3 SCCTerm FilterSym Main2 StrategyFacts ControlFacts4 PyLib PySrc PySrcFacts SkipRuleFacts2."""
 
 EX_NET = """
 (* non-vacuity: two bistable switches; x0'=x1, x1'=x0, x2'=x3, x3'=x2 *)
@@ -172,7 +172,9 @@ half of the statement that survives (no spurious seeds).""",
            ("refuted_attractor", "C05_refuted_attractor", None),
            ("witness_counts", "d4_counts", "26 nodes, 16 attractors, 8 lost, none reported twice"),
            ("ideal_seeds_sound", "ideal_seeds_sound", None),
-           ("rule_only_for_skip_nodes", "no_skip_no_exclusion", None)],
+           ("rule_only_for_skip_nodes", "no_skip_no_exclusion", None),
+           ("leaf_attractors_never_lost", "leaf_attractors_represented", "whatever was computed before, a leaf (minimal trap space) reports every attractor inside it"),
+           ("no_maa_nothing_lost", "no_maa_nothing_lost", "the positive half: without motif-avoidant attractors a diagram completed by skipping loses no attractor; the loss of C05_refuted needs a motif-avoidant attractor")],
  examples="")
 
 SPEC["C06"] = dict(title="Every intervention reported successful really forces the network into the target", comment="""
